@@ -1,5 +1,7 @@
 import GA.Go.Path
 import Driver.Proto
+import GA.M.Compress
+import GA.M.Unshare
 /-
   Line-protocol driver: one case per line on stdin, one canonical outcome per
   line on stdout.  Core-only imports, so it links as a native executable.
@@ -27,6 +29,13 @@ def handle (line : String) : String :=
       | some s => showOpt (some (base s)) | none => "bad-op"
   | "split" :: a :: _ => match strOfHex a with
       | some s => "OK " ++ showStr (splitLast s).1 ++ " " ++ showStr (splitLast s).2 | none => "bad-op"
+  | "detect" :: a :: _ => match strOfHex a with
+      | some s => "OK " ++ toString (GA.Compress.detect s) ++ " " ++ toString (GA.Compress.sniff s) | none => "bad-op"
+  | "unshare" :: fl :: un :: su :: _ => match fl.toNat? with
+      | some flags =>
+        let c := GA.Unshare.goM flags ⟨fun _ => true, un = "1", su = "1", fun _ => true⟩
+        "OK released=" ++ toString c.released ++ " fn=" ++ toString c.fnRan ++ " err=" ++ toString c.err
+      | none => "bad-op"
   | "within" :: a :: b :: _ => match strOfHex a, strOfHex b with
       | some x, some y => if isWithin x y then "OK 01" else "OK 00" | _, _ => "bad-op"
   | op :: _ => if op = "untar" ∨ op = "layer" ∨ op = "untar-chroot" ∨ op = "layer-chroot" then handleFs ws else "bad-op"
